@@ -933,9 +933,9 @@ func (s *Server) RemoteHandshake(
 	qTick := s.Source.QueueTick()
 	s.log("RemoteHandshake: t%v q%d", sum, qTick)
 
-	// accept the client
+	// accept the client (the connect callback is async and may come later)
 	s.rpcClient.Store(client)
-	s.Mach.Add1(ssS.HandshakeDone, Pass(&A{
+	s.Mach.Add(am.S{ssS.ClientConnected, ssS.HandshakeDone}, Pass(&A{
 		Id: *id,
 	}))
 
